@@ -61,6 +61,10 @@ _MORE = {
  "C06": dict(cat="exploration", tech="deviation-bounded exhaustive enumeration of lossy options x pictures x {serial, parallel} on the real encoder with an overlay hook exposing its reconstruction; independent decoder without loop filter as oracle",
    text="10 pictures x lossy EncoderOptions with at most 2 (thorough 3) fields away from the defaults (16 fields) x worker count {1, 3 under the deterministic default schedule}, plus every ordered pair of Methods on a recycled encoder: the reconstruction planes the encoder holds when EncodeFrame returns (captured by an overlay wrapper generated at check time) must equal bit-exactly what the vendored decoder reconstructs before in-loop deblocking, and webp.Decode's planes when the filter level is 0; decoded size equals source size.",
    note="Reads VP8Encoder.yPlane/uPlane/vPlane through a generated accessor (skipped and reported, never an alarm, if those fields disappear); 3-way option interactions only in thorough.", ref="3/C06"),
+
+ "C13": dict(cat="exploration", tech="multi-build differential: the same pipeline case list executed by three builds of the current tree (AVX2, SSE2-only, portable Go under js/wasm) plus an exhaustive-over-list GOOS/GOARCH compilation matrix",
+   text="The harness is built three times from the current working tree - native amd64 (AVX2 kernels), amd64 with AVX2 detection forced off by an overlay (SSE2 kernels), and GOOS=js GOARCH=wasm executed under node (the files selected for non-assembly targets, i.e. the portable Go kernels) - and each build prints a digest for 260 pipeline cases (15 pictures x 14 option sets incl. every Method, sharp YUV, dithering, TargetSize; decode of the whole still corpus; playback of the animation corpus); the digests must be equal case by case. `go build` of every library package must succeed for 13 GOOS/GOARCH pairs (thorough: every pair the toolchain lists that builds without cgo).",
+   note="arm64 assembly and 32-bit targets cannot be executed in this sandbox (compile-only); kernel inputs are those the pipeline cases reach; one open known finding (linux/s390x compiler error).", ref="3/C13"),
 }
 CHECKS.update(_MORE)
 NA = {}
